@@ -57,3 +57,43 @@ PROPS["C12"] = dict(
                  thorough=dict(cases=50000, size=300, procs=16))],
     min_evaluations=dict(quick=20000, thorough=400000),
 )
+
+PROPS["C09"] = dict(
+    title="Codecs round-trip every input and honour their size bounds",
+    level="exploration",
+    design_ref="DESIGN.md section 8, C09",
+    level_text=("Generated structured byte strings (segments: random, constant, periodic, back-references at chosen distances incl. across "
+                "64 KiB, text) x codec x level, compressed into an exact-size buffer of the advertised bound and decompressed into exactly "
+                "len(x) bytes under ASan; destinations smaller than the bound must be refused or still round-trip. Exploration only."),
+    level_note="trusts ASan to flag any write past an exact-size heap block; GZIP/ZSTD wrap the system zlib/libzstd",
+    technique="property-based testing (rapidcheck): round-trip + bound + small-destination oracle on structured byte strings under ASan",
+    rule=("case = (codec in snappy/lz4/gzip/zstd, level incl. out-of-range, segment list); bytes are a pure function of the segment list. "
+          "Non-trivial: a literal stretch > 60 bytes, or a repetitive stretch >= 68 bytes, or a back-reference that crosses the 64 KiB line "
+          "of an input > 64 KiB. Distinct = FNV-1a-64 of the serialised case."),
+    assumptions=["compress_bound(n) is the advertised bound; src/dst pointers are non-NULL also for empty inputs"],
+    engines=[pbt("c09_codecs", quick=dict(cases=700, size=100, procs=4), thorough=dict(cases=4000, size=200, procs=16))],
+    min_evaluations=dict(quick=1500, thorough=30000),
+)
+
+PROPS["C10"] = dict(
+    title="Built-in Snappy and LZ4 speak the standard formats",
+    level="exploration",
+    design_ref="DESIGN.md section 8, C10",
+    level_text=("Differential testing against independent Snappy/LZ4 block codecs written from the format documents (ref/lz_ref.hpp) and "
+                "cross-checked on every case with libsnappy 1.1.9 / liblz4 1.9.4: compressor output must decode (and satisfy the LZ4 "
+                "end-of-block rules); grammar-generated valid streams with every tag kind, length encoding and overlap must be accepted; "
+                "streams the formats define as invalid must be rejected. Exploration only."),
+    level_note="trusts the format documents as read into ref/lz_ref.hpp; a case where the reference and the system library disagree is discarded and counted (oracle_disagreement)",
+    technique="property-based differential testing (rapidcheck): grammar-based stream generation, independent decoders, libsnappy/liblz4 cross-check",
+    rule=("(a) structured inputs -> carquet compressor -> reference decoder + system library; (b) element lists (Snappy: literals with 0..4 "
+          "length bytes incl. non-minimal, copy-1/2/4, offset 1 / = produced / < length; LZ4: literal and match lengths around 15/19 and "
+          "255-chains, overlapping matches, zero-literal sequences) serialised and fed to carquet; (c) one defect injected: offset 0, offset "
+          "beyond output, truncation inside an element, output shorter/longer than declared, capacity too small. Non-trivial: (a) output "
+          "contains a copy/match and input > 100 bytes; (b) stream uses a form carquet never emits (copy-4, multi-byte literal length, "
+          "offset-1 / overlapping copy, 255-chain, zero-literal sequence); (c) every injected defect. Not asserted: whole Snappy elements "
+          "after a complete output, LZ4 end-of-block rule violations on decode."),
+    assumptions=["offset 0 is invalid per the LZ4 block format document although liblz4 does not check it",
+                 "non-minimal Snappy literal length encodings are valid (libsnappy accepts them; cross-checked per case)"],
+    engines=[pbt("c10_formats", libs=["rapidcheck", "snappy", "lz4"], quick=dict(cases=5000, size=100, procs=4), thorough=dict(cases=30000, size=200, procs=16))],
+    min_evaluations=dict(quick=10000, thorough=200000),
+)
